@@ -1,5 +1,6 @@
 import KafkaModel.Model.Consumer
 import KafkaModel.Model.Producer
+import KafkaModel.Props.C07
 /-!
   C16 — Every client, producer and consumer setting takes effect, in any builder order.
   Builders are lists of calls folded over the builder record (`ConsumerBuilder.apply`, `ProducerBuilder.apply`);
@@ -178,4 +179,28 @@ example : toMillisI32 540 123456789 = .ok 540123 := by simp [toMillisI32]
 example : toMillisI32 2147483 648000000 = .error .invalidDuration := by simp [toMillisI32]
 example : (([.crc false, .clientId [1], .group [2]] : List CBOp).foldl ConsumerBuilder.apply {}).crc = false := rfl
 
+/-! ### the fetch size in force after delivery -/
+
+/-- **the fetch size in force**: whenever a partition delivers messages - in a poll over one partition or over many, on a
+    single-partition consumer or not - its next Fetch request carries the size given to the book-keeping (`normalMax`, which
+    `processResponses` reads from the consumer's client at that moment), at the offset behind the last message -/
+theorem C16_delivery_puts_size_in_force (nm : Int) (nq : Nat) (single : Bool) (c : Consumer) (tr : Nat) (p : FetchPartition)
+    (hw : Int) (msgs : List Message) (last : Message) (fs : FetchState)
+    (hd : p.data = .ok (hw, msgs)) (hl : msgs.getLast? = some last) (hfs : assocGet c.fetchOffsets ⟨tr, p.partition⟩ = some fs) :
+    ∃ c', processPartition nm nq single c tr p = (.ok c', true) ∧
+      assocGet c'.fetchOffsets ⟨tr, p.partition⟩ = some ⟨last.offset + 1, nm⟩ ∧
+      ∀ k, k ≠ (⟨tr, p.partition⟩ : TP) → assocGet c'.fetchOffsets k = assocGet c.fetchOffsets k := by
+  refine ⟨{ c with fetchOffsets := assocSet c.fetchOffsets ⟨tr, p.partition⟩ ⟨last.offset + 1, nm⟩ }, ?_, ?_, ?_⟩
+  · simp [processPartition, hd, hfs, hl]
+  · exact Kafka.Props.C07.aget_set_self _ _ _
+  · intro k hk; exact Kafka.Props.C07.aget_set_other _ _ _ _ hk
+
+/-- and the size the book-keeping is given is the client's current setting -/
+theorem C16_bookkeeping_reads_client {σ} (nq : Nat) (resps : List FetchResponse) (w : WC σ) (c' : Consumer) (ne : Bool)
+    (hp : preScan w.cons resps = none)
+    (h : processAll w.cons.client.cfg.fetchMaxBytes nq (w.cons.fetchOffsets.length = 1)
+          (resps.flatMap fun r => r.topics.flatMap fun t => t.partitions.map fun p => (t.topic, p)) w.cons false = (.ok c', ne)) :
+    processResponses nq resps w = ({ w with cons := c' }, .ok ⟨resps, !ne⟩) := by
+  unfold processResponses
+  simp only [hp, h]
 end Kafka.Props.C16
